@@ -108,6 +108,12 @@ func hasFloat(n Node) bool {
 }
 
 func runText(c *Case) Verdict {
+	// U+2400 stands for the NUL character in generated texts (a TLA+ string cannot hold one)
+	if strings.Contains(c.Text, "\u2400") {
+		cc := *c
+		cc.Text = strings.ReplaceAll(c.Text, "\u2400", "\x00")
+		c = &cc
+	}
 	ns := envPool.Get().(types.EnvType)
 	defer envPool.Put(ns)
 	v := Verdict{Class: c.Cls}
